@@ -169,6 +169,29 @@ CHECKS["C11"] = dict(
          "compiled bintree.c must produce the same returned node and the same temporary link image after every call.",
     note="bintree.c is compiled directly by the driver (it is not in librfn's build). Reads of freed nodes are observed by "
          "ASan (nodes are poisoned and really freed), not proved absent beyond the executed shapes.")
+CHECKS["C08"] = dict(
+    engine="tlc+generated-programs+tracecheck", category=MC, design_ref="DESIGN.md section 4/C08",
+    technique="TLA+ spec (Proto.tla: Exec = one invocation through the macros' switch/case machinery, SeqRun = the uncut "
+              "sequential program) checked with TLC on every generated program; the same programs emitted as C built from the "
+              "real protothreads.h and run invocation by invocation, validated by TLC against Exec (TraceProto); cross-check "
+              "of the generator's two translations through sequential stand-in macros",
+    text="For ~415 (quick) / ~2700 (thorough) programs - every blocking construct in eleven control-flow contexts up to nesting "
+         "depth 3, children to depth 2, PT_FAIL/PT_CHILD_OK/PT_SPAWN_AND_CHECK/PT_CALL, restart after PT_INIT, plus seeded "
+         "random programs - TLC checks Exec == SeqRun and the compiled macros must reproduce Exec's effects, return code and "
+         "variables at every single invocation.",
+    note="Programs are generated (systematic + random), not every program up to a size bound; the AST->C and AST->graph "
+         "translations of tools/ptgen.py are trusted up to the sequential cross-check.")
+CHECKS["C15"] = dict(
+    engine="tlc+replay+tracecheck", category=MC, design_ref="DESIGN.md section 4/C15",
+    technique="TLA+ spec (Console.tla: editor, in-place tokeniser, sorted table, dispatch) model-checked with TLC; edge cover "
+              "replayed on console.c through console_process and console_putchar+fibre; exhaustive short streams, random long "
+              "lines through process/putchar/console_eval and registration orders validated by TLC against TraceConsole.tla",
+    text="TLC checks buffer limit, table order and dispatch shape on all bounded streams; the real console's dispatches (which "
+         "registered command ran, argc, argv strings, each argv inside the line buffer), the edited line after every character "
+         "and every registration result are compared with the specification for all 4-/5-character streams, lines around the "
+         "79-character limit, multi-line console_eval injections and up to 39 registrations.",
+    note="Heap-allocated console_t under ASan observes writes outside the structure; a line starting with a blank names no "
+         "command (named deviation, modelled as the code behaves).")
 NOT_YET = "check not built yet (work in progress; planned per DESIGN.md section 4)"
 NA = {}
 
